@@ -59,7 +59,8 @@ def generate(rng, tier):
         handles[0]['mode'] = 'read'
     if not any(h['mode'] == 'open' for h in handles):
         handles[-1]['mode'] = 'open'
-    return {'spec': spec, 'handles': handles, 'short_seed': rng.getrandbits(32) if rng.random() < 0.2 else None}
+    return {'spec': spec, 'handles': handles, 'short_seed': rng.getrandbits(32) if rng.random() < 0.2 else None,
+            'debug_log': rng.random() < 0.05}
 
 
 UNSCALED_PATHS = ('read_data(scaled=False)', 'raw_data')
@@ -161,7 +162,7 @@ def execute(case):
     modes = set(h['mode'] for h in case['handles'])
     if len(modes) == 2:
         res.probe('eager+lazy')
-    with store(short_seed=case['short_seed'], record=False) as st:
+    with store(short_seed=case['short_seed'], record=False) as st, lib.knobs(debug_log=case.get('debug_log', False)):
         st.put('w.tdms', w.data)
         per_chan = {p: [] for p in w.chans}       # (handle index, raw_ts, name, result)
         opened = []
